@@ -46,7 +46,16 @@ def _run_cases(vd, ev, binp, sub, cases, work, extra, label):
 def run(tier, pid="C19", ev=None, vd=None, finish=True):
     ev = ev or Evidence(pid, tier, "model_checking")
     vd = vd or Verdict(pid, ev)
-    bins = vlib.build_harness(["vh_plan"])
+    try:
+        bins = vlib.build_harness(["vh_plan"])
+    except vlib.ToolError as e:
+        # the pure modules no longer compile into the harness (e.g. a changed signature): decide what can be decided
+        # through the CLI instead of reporting nothing - the planner and matcher drive `sync -r --dry-run` / real runs
+        log(f"[{pid}] {e}; falling back to CLI-only exploration (one-way graph: plans, excludes, dry runs)")
+        import oneway_common
+        ev.extra["fallback"] = "harness build failed; planner / matcher decided through the CLI only"
+        oneway_common.run(pid, tier, ev, vd, finish=False, accept={"C04", "C15"})
+        return vd.finish() if finish else 0
     work = vlib.shm_dir(pid.lower())
     try:
         # --- glob + exclude
